@@ -8,6 +8,8 @@
 //	concat:string         the body concatenates onto a string
 //	floatsum:<type>       the body accumulates a floating-point sum (addition is not associative)
 //	pick:return           the body returns a value derived from the iteration variables
+//	pick:assign           the body overwrites a variable declared outside the loop with a value derived from
+//	                      the iteration variables (last — or with a break, first — element wins)
 //	delete                the body deletes map entries (what is deleted may depend on earlier deletions)
 //
 // and, for append sinks, what happens to the slice afterwards in the same function, in source
@@ -631,6 +633,42 @@ func genMapRanges(e *Env) (string, error) {
 									emit(s)
 									break
 								}
+							}
+						}
+						return true
+					})
+					// pick:assign — a variable declared OUTSIDE the loop is overwritten (plain `=`) with a value
+					// derived from the iteration variables: after the loop it holds the value of the last
+					// iteration (or, with a break, of the first), i.e. an arbitrary element of the map.
+					ast.Inspect(rs.Body, func(m ast.Node) bool {
+						if _, ok := m.(*ast.FuncLit); ok {
+							return false
+						}
+						as, ok := m.(*ast.AssignStmt)
+						if !ok || as.Tok != token.ASSIGN || len(as.Lhs) != len(as.Rhs) {
+							return true
+						}
+						for i, l := range as.Lhs {
+							id, ok := l.(*ast.Ident)
+							if !ok || id.Name == "_" {
+								continue
+							}
+							o := p.info.Uses[id]
+							if o == nil || (o.Pos() >= rs.Pos() && o.Pos() <= rs.End()) {
+								continue // declared inside the loop
+							}
+							if _, isVar := o.(*types.Var); !isVar {
+								continue
+							}
+							if call, ok := as.Rhs[i].(*ast.CallExpr); ok {
+								if fid, ok := call.Fun.(*ast.Ident); ok && fid.Name == "append" {
+									continue // x = append(x, …) is the append sink
+								}
+							}
+							if mentions(p.info, as.Rhs[i], iter) {
+								s := base
+								s.sink = "pick:assign"
+								emit(s)
 							}
 						}
 						return true
